@@ -713,12 +713,55 @@ func Execute(spec *Spec) *Trace {
 	}
 
 	if spec.Policy == "eager" {
-		// no controller: wait for every Run to return (hook still decides deadlock)
+		// no controller: wait for every Run to return (hook still decides deadlock; bounded progress as in the controlled
+		// runs: no task function executing anywhere, every graph that has not returned idles with vertices in progress and
+		// an unchanged state for thousands of its own iterations and several seconds)
+		type eagerStab struct {
+			counts    [4]int
+			startTick uint64
+			since     time.Time
+			init      bool
+		}
+		stab := make([]eagerStab, ng)
+		gone := make([]bool, ng)
 		for returned < ng {
 			select {
 			case rr := <-resCh:
 				collect(rr)
+				gone[rr.gi] = true
 			case <-time.After(200 * time.Microsecond):
+				if atomic.LoadInt32(&r.live) == 0 {
+					all, desc := true, ""
+					for gi, h := range hs {
+						if gone[gi] {
+							continue
+						}
+						s := atomic.LoadUint64(&h.snap)
+						tick, p, ip, sk, dn := unpack(s)
+						c := [4]int{p, ip, sk, dn}
+						st := &stab[gi]
+						if s == 0 || !st.init || c != st.counts {
+							*st = eagerStab{counts: c, startTick: tick, since: time.Now(), init: s != 0}
+							all = false
+							continue
+						}
+						if ip == 0 || tick-st.startTick < 2000 || time.Since(st.since) <= 3*time.Second {
+							all = false
+							continue
+						}
+						desc += fmt.Sprintf(" g%d: %d iterations (%.1fs) with pending=%d inprogress=%d skip=%d done=%d;", gi, tick-st.startTick, time.Since(st.since).Seconds(), p, ip, sk, dn)
+					}
+					if all && desc != "" && atomic.LoadInt32(&r.live) == 0 {
+						tr.Stalled = "no task function is executing, yet every graph that has not returned idles:" + desc
+						abandon()
+						returned = ng
+						break
+					}
+				} else {
+					for gi := range stab {
+						stab[gi].init = false
+					}
+				}
 				for gi, h := range hs {
 					s := atomic.LoadUint64(&h.snap)
 					if s == 0 {
